@@ -74,7 +74,9 @@ class Resampler:
         u = self.state.get_history("u", flat=True)
         x = self.state.get_history("x", flat=True)
         logl = self.state.get_history("logl", flat=True)
-        blobs = self.state.get_history("blobs", flat=True) if self.have_blobs else None
+        # Blobs are tracked whenever the likelihood returned some (blobs_dtype=None infers their dtype)
+        have_blobs = self.have_blobs or self.state.get_current("blobs") is not None
+        blobs = self.state.get_history("blobs", flat=True) if have_blobs else None
 
         if self.resample == "mult":
             idx_resampled = np.random.choice(
@@ -95,5 +97,5 @@ class Resampler:
             }
         )
 
-        if self.have_blobs:
+        if have_blobs:
             self.state.set_current("blobs", blobs[idx_resampled])
